@@ -1020,3 +1020,164 @@ def check_method_sets_stable(rep, rule):
                       'DispatchState.%s adopts %s and then updates it in place: recording the methods of the routes that refused one request '
                       'rewrites a route\'s own method set, so the route admits (and slash-redirects) other methods for all later requests'
                       % (field, short(st_.value)), app, st_)
+
+
+# ------------------------------------------------------------------------------------------ what counts as a finished result
+CORE = 'clastic.middleware.core'
+
+
+def _class_candidates(repo, fi, text, te_env, depth=0):
+    """The classes the expression text ``text`` (a name the environment dict of compile_code maps a global of the generated
+    function to) can stand for: a class the module of ``fi`` defines / imports, or -- for a parameter of ``fi`` -- its
+    default and what every call of ``fi`` in the package passes for it.  [(ClassInfo, where)]; AnalysisError when a
+    candidate is not a plain name of a class of the analysed tree."""
+    from .. import callgraph
+    if not text.isidentifier():
+        raise AnalysisError('%s: %s is not a plain name (the class it denotes is not followed)' % (fi.qualname, text))
+    if text not in fi.params():
+        kind, m, obj = repo.resolve(fi.mod, text)
+        if kind != 'class':
+            raise AnalysisError('%s: %s does not resolve to a class of the analysed tree (%s)' % (fi.qualname, text, kind))
+        return [(obj, fi.node)]
+    if depth > 2:
+        raise AnalysisError('%s: parameter %s is handed on too many times to be followed' % (fi.qualname, text))
+    a = fi.node.args
+    pos = [x.arg for x in a.posonlyargs + a.args]
+    dflt = dict(zip(pos[len(pos) - len(a.defaults):], a.defaults))
+    dflt.update((x.arg, d) for x, d in zip(a.kwonlyargs, a.kw_defaults) if d is not None)
+    out, passed_everywhere = [], True
+    n_calls = 0
+    for m in repo.all_internal_modules():
+        for caller in m.functions.values():
+            for c in walk_body(caller.node):
+                if not (isinstance(c, ast.Call) and isinstance(c.func, ast.Name) and c.func.id == fi.node.name):
+                    continue
+                k_, m_, o_ = repo.resolve(m, c.func.id)
+                if not (k_ == 'func' and o_ is fi):
+                    continue
+                n_calls += 1
+                if any(isinstance(x, ast.Starred) for x in c.args) or any(k.arg is None for k in c.keywords):
+                    raise AnalysisError('%s: a call in %s passes */** arguments (what %s receives is not followed)' % (fi.qualname, caller.qualname, text))
+                given = None
+                if text in pos and pos.index(text) < len(c.args):
+                    given = c.args[pos.index(text)]
+                for k in c.keywords:
+                    if k.arg == text:
+                        given = k.value
+                if given is None:
+                    passed_everywhere = False
+                    continue
+                if not isinstance(given, ast.Name):
+                    raise AnalysisError('%s: %s passes %s for %s (not a plain class name)' % (fi.qualname, caller.qualname, short(given, 40), text))
+                if given.id in caller.params():
+                    out.extend(_class_candidates(repo, caller, given.id, te_env, depth + 1))
+                    continue
+                k2, m2, o2 = repo.resolve(m, given.id)
+                if k2 != 'class':
+                    raise AnalysisError('%s: %s passes %s for %s, which is not a class of the analysed tree' % (fi.qualname, caller.qualname, given.id, text))
+                out.append((o2, c))
+    if not passed_everywhere or not n_calls:
+        d = dflt.get(text)
+        if d is None:
+            if n_calls:
+                raise AnalysisError('%s: parameter %s has no default and a caller leaves it out' % (fi.qualname, text))
+            raise AnalysisError('%s: no call found from which parameter %s could be followed' % (fi.qualname, text))
+        if not isinstance(d, ast.Name):
+            raise AnalysisError('%s: the default of %s is not a plain class name' % (fi.qualname, text))
+        k3, m3, o3 = repo.resolve(fi.mod, d.id)
+        if k3 != 'class':
+            raise AnalysisError('%s: the default of %s (%s) is not a class of the analysed tree' % (fi.qualname, text, d.id))
+        out.append((o3, d))
+    return out
+
+
+def check_result_class_agreement(rep, rule):
+    """The generated request core hands ``context`` back unrendered when ``isinstance(context, X)``; dispatch accepts a
+    result when ``isinstance(ret, C)`` (anything else is a TypeError turned into a 500) and treats it as an error when it
+    is an HTTPException.  An error an endpoint *returns* is the route's answer -- and a non-breaking one lets later routes
+    be tried -- only if it passes the first test untouched: X must be C or a base of C, and HTTPException must derive from
+    both.  X is a global of the generated function: it is followed through the environment dict handed to compile_code,
+    parameters (defaults, callers' arguments) and the imports of the module."""
+    import textwrap
+    from .. import codegen
+    from .common import raises_of, raise_type, isinstance_test
+    repo = rep.repo
+    core = repo.mod(CORE)
+    fi = core.func('_create_request_inner')
+    ps = fi.params()
+    te = codegen.TemplateEval(repo, fi).run()
+    sinks = [k for k in te.sinks if k['name'] == 'compile_code']
+    if len(sinks) != 1:
+        raise AnalysisError('_create_request_inner: expected one compile_code call')
+    sink = sinks[0]
+    arg = lambda name, pos: sink['kw'][name] if name in sink['kw'] else (sink['args'][pos] if len(sink['args']) > pos else None)
+    code, env = arg('code_str', 0), arg('env', 2)
+    if not isinstance(code, codegen.Tmpl) or any(isinstance(p, codegen.Sym) and p.kind == 'expr' for p in code.parts):
+        raise AnalysisError('_create_request_inner: the request-core template is not a string the evaluator can follow')
+    if not (isinstance(env, codegen.SDict) and env.comp is None):
+        raise AnalysisError('_create_request_inner: the environment handed to compile_code is not a dict display')
+    envmap = dict((k, v.text if isinstance(v, codegen.Ex) else None) for k, v in env.items.items())
+    try:
+        tree = ast.parse(textwrap.dedent(codegen.render(code.parts).text))
+    except SyntaxError as e:
+        raise AnalysisError('_create_request_inner: the template does not parse (%s)' % e)
+    fdefs = [s for s in tree.body if isinstance(s, ast.FunctionDef)]
+    if len(fdefs) != 1:
+        raise AnalysisError('_create_request_inner: the template does not define one function')
+    g = fdefs[0]
+    ep_names = [k for k, v in envmap.items() if v == ps[0]]
+    ctx = [s.targets[0].id for s in ast.walk(g) if isinstance(s, ast.Assign) and len(s.targets) == 1 and isinstance(s.targets[0], ast.Name) and
+           isinstance(s.value, ast.Call) and isinstance(s.value.func, ast.Name) and s.value.func.id in ep_names]
+    if len(ctx) != 1:
+        raise AnalysisError('_create_request_inner: the local holding the endpoint result was not found in the generated code')
+    tests = [c for c in ast.walk(g) if isinstance_test(c, var=ctx[0])]
+    if not tests:
+        raise AnalysisError('_create_request_inner: no isinstance test of the endpoint result in the generated code')
+    cands = []
+    for t in tests:
+        for e in (t.args[1].elts if isinstance(t.args[1], ast.Tuple) else [t.args[1]]):
+            if not isinstance(e, ast.Name):
+                raise AnalysisError('generated request core: isinstance against %s is not followed' % norm(e))
+            if envmap.get(e.id) is None:
+                raise AnalysisError('generated request core: the global %s is not bound by the environment dict to a name' % e.id)
+            cands.extend((ci, e.id) for ci, where in _class_candidates(repo, fi, envmap[e.id], te.env))
+    # what dispatch accepts as a finished result: the class of the isinstance test whose failure raises the TypeError
+    dv = DispatchView(repo)
+    accepted = []
+    for r in raises_of(dv.fi):
+        if raise_type(r) != 'TypeError':
+            continue
+        for t, p in conds(dv.fi, r):
+            if p is False and isinstance_test(t, var=dv.ret_var):
+                for e in (t.args[1].elts if isinstance(t.args[1], ast.Tuple) else [t.args[1]]):
+                    c = repo.resolve_class(dv.app, e)
+                    if isinstance(c, str):
+                        raise AnalysisError('dispatch: the result class %s is not a class of the analysed tree' % norm(e))
+                    accepted.append(c)
+    if not accepted:
+        raise AnalysisError('dispatch: the isinstance test that refuses a non-Response result was not found')
+    http = repo.mod('clastic.errors').cls('HTTPException')
+    http_mro = repo.mro(http)
+    name_of = lambda c: '%s.%s' % (c.mod.name, c.name)
+    seen = set()
+    for ci, gname in cands:
+        if id(ci) in seen:
+            continue
+        seen.add(id(ci))
+        covers = all(any(x is ci for x in repo.mro(c)) for c in accepted)
+        errs = any(x is ci for x in http_mro)
+        ok = covers and errs
+        rep.check(rule, '%s::%s::unrendered results::%s' % (CORE, fi.qualname, ci.name), ok,
+                  'the generated request core hands back unrendered every %s: all that dispatch accepts as a result (%s), HTTPException included'
+                  % (name_of(ci), ', '.join(name_of(c) for c in accepted)) if ok else
+                  'the generated request core hands back unrendered only instances of %s, but %s: an HTTP error an endpoint returns is sent '
+                  'through render (rendered as a context, or TypeError -> 500) instead of being the route\'s answer -- a returned '
+                  'non-breaking error no longer lets later routes be tried'
+                  % (name_of(ci), 'HTTPException does not derive from it' if not errs else
+                     'dispatch accepts %s, which is not derived from it' % ', '.join(name_of(c) for c in accepted)), core, fi.node)
+    for c in accepted:
+        ok = any(x is c for x in http_mro)
+        rep.check(rule, '%s::Application.dispatch::accepted result::%s' % (APP, c.name), ok,
+                  'an HTTPException is a %s: a returned error passes dispatch\'s result test' % name_of(c) if ok else
+                  'dispatch refuses results that are not %s, and HTTPException does not derive from it: a returned error becomes a 500' % name_of(c),
+                  dv.app, dv.exec_st)
